@@ -4,6 +4,8 @@ import J5V.Compile.UsesAll
 import J5V.Compile.ValidPkg
 import J5V.Compile.LinkImports
 import J5V.Compile.LinkAssemble
+import J5V.Compile.LinkRelative
+import J5V.Compile.LinkSites
 import J5V.Generated.SetextFacts
 import J5V.Generated.ImportsFacts
 /-!
@@ -321,6 +323,56 @@ theorem C07_links_iff (b : Bundle) (r : Str → Nat) (hv : ValidBundle b r)
           ∀ f ∈ sortFiles l.files, NamesResolve (linkUniv l) f)) :=
   compileLinked_ok_iff b r hv rk hrk p hp hplain
 
+/-- **Bridge (link-model half): relative names resolve.** j5convert writes inline types, map
+entries and rpc messages as RELATIVE names. In the link model, for any file `self`, any imports and
+any stack `scopes` of enclosing messages: a relative name `name` (not starting with a dot) whose
+full form `<pkg>.<name>` is a message / enum symbol of the file, whose first segment is a message
+of the package (or is the whole name), resolves by protobuf scoping to exactly `.<pkg>.<name>` of
+the wanted kind — provided NO enclosing message scope has a child or namespace named like the first
+segment (`hnocap`: the capture condition; the recorded finding `valid-capture-inline-name` is a
+violation of it, example below). Still open: deriving `hsym` / `hfirst` / `hnocap` for every
+reference of every generated file from the sources (`C02_declared_types_link` gives the symbols of
+declared types; the scopes of a field are the `NestPath` prefixes). -/
+theorem C07_link_relative_resolves (self : LFile) (deps : List LFile) (scopes : List Str) (name : Str)
+    (k k1 : SymKind) (hk : k = .msg ∨ k = .enum)
+    (hrel : ∀ rest, name ≠ 46 :: rest) (hpkg : self.pkg ≠ [])
+    (hsym : self.syms.lookup (qual self.pkg name) = some k)
+    (hfirst : self.syms.lookup (qual self.pkg (firstPart name)) = some k1)
+    (hagg : k1 = .msg ∨ firstPart name = name)
+    (hnocap : ∀ m ∈ scopes, self.find (qual m (firstPart name)) = none) :
+    resolveType self (self :: deps) scopes k name = some (b!"." ++ qual self.pkg name) :=
+  resolveType_relative self deps scopes name k k1 hk hrel hpkg hsym hfirst hagg hnocap
+
+/-- **Bridge (link-model half): absolute names resolve.** References to declared types and the
+well-known types are written absolutely (`.pkg.Name`, `TypeRef.protoTypeName`). In the link model
+such a name resolves to itself, with the wanted kind, as soon as some visible file `g` declares it
+and every file visible BEFORE `g` (the file itself first, then its imports in sorted order) neither
+declares the name nor has a package namespace matching it (`f.find abs = none`), from any scope.
+With `C02_declared_types_link` (the declaring file has the symbol), `C02_refs_resolve_pkg` (the
+declaring file is the file itself or one of its deps) and `C07_link_imports_found` (the dep is in
+the universe) what is still open for references is the shadowing condition `hbefore` from the
+sources. -/
+theorem C07_link_absolute_resolves (self : LFile) (before after : List LFile) (g : LFile)
+    (scopes : List Str) (abs : Str) (k : SymKind)
+    (hbefore : ∀ f ∈ before, f.find abs = none)
+    (hsym : g.syms.lookup abs = some k) :
+    resolveType self (before ++ g :: after) scopes k (46 :: abs) = some (b!"." ++ abs) :=
+  resolveType_absolute self before after g scopes abs k hbefore hsym
+
+/-- **`NamesResolve`, site by site.** The resolution arm of a generated file is a statement about
+each field *site* — every field of every (nested) message together with the stack of enclosing
+message names `resolveMsg` resolves it in (`msgsSites`) — and about each rpc's input and output:
+the arm is not taken iff the type name at every site and of every rpc resolves. The two lemmas
+above discharge one site each; what is open is to supply their hypotheses for every site from the
+sources. -/
+theorem C07_link_names_sites (univ : List LFile) (f : FileSkel) :
+    NamesResolve univ f ↔
+      (∀ s ∈ msgsSites [] f.pkg f.msgs, (resolveField f.lfile (visOf univ f) s.1 s.2).isSome = true) ∧
+      (∀ svc ∈ f.svcs, ∀ m ∈ svc.methods,
+        (resolveType f.lfile (visOf univ f) [] .msg m.input).isSome = true ∧
+        (resolveType f.lfile (visOf univ f) [] .msg m.output).isSome = true) :=
+  namesResolve_iff univ f
+
 /-- non-vacuity of the link bridges: a two-file package `bar.v1` (`c.j5s` refers to the enum `E` of
 `b.j5s` — cross-file — and to `foo.v1`'s `A` through an import — cross-package — and holds a map
 field with rules) next to `foo.v1` -/
@@ -398,6 +450,44 @@ example : fileRankOk captureBundle (fun n => if n = b!"foo/v1/a.j5s.proto" then 
     (sortFiles captureLoaded.files).all (namesResolve (linkUniv captureLoaded)) = false := by
   unfold NoDupSyms
   refine ⟨?_, ?_, ?_⟩ <;> decide +kernel
+
+/-- hypotheses of `C07_link_relative_resolves` on the generated file of `c.j5s`: the inline object of
+field `in` is referred to as `C.In` from inside `bar.v1.C`; on the capture witness the name `Foo.Foo`
+is captured: the scope `foo.v1.Foo` has a child `Foo` -/
+example :
+    (match (sortFiles linkLoaded.files)[1]? with
+     | some f =>
+       decide (f.lfile.syms.lookup (qual f.lfile.pkg b!"C.In") = some SymKind.msg) &&
+       decide (f.lfile.syms.lookup (qual f.lfile.pkg (firstPart b!"C.In")) = some SymKind.msg) &&
+       decide (f.lfile.find (qual b!"bar.v1.C" (firstPart b!"C.In")) = none) &&
+       decide (f.lfile.pkg ≠ [])
+     | none => false) = true ∧
+    (match (sortFiles captureLoaded.files)[0]? with
+     | some f => decide (f.lfile.find (qual b!"foo.v1.Foo" (firstPart b!"Foo.Foo")) ≠ none)
+     | none => false) = true := by
+  refine ⟨?_, ?_⟩ <;> decide +kernel
+
+/-- hypotheses of `C07_link_absolute_resolves` on the generated file of `c.j5s`: `.foo.v1.A` is declared
+by the third visible file (`foo/v1/a.j5s.proto`); the file itself, `bar/v1/b.j5s.proto` and
+`buf/validate/validate.proto`, visible before it, do not know the name -/
+example :
+    (match (sortFiles linkLoaded.files)[1]? with
+     | some f =>
+       match visOf (linkUniv linkLoaded) f with
+       | v0 :: v1 :: v2 :: g :: _ =>
+         decide (g.name = b!"foo/v1/a.j5s.proto") &&
+         decide (g.syms.lookup b!"foo.v1.A" = some SymKind.msg) &&
+         [v0, v1, v2].all (fun v => decide (v.find b!"foo.v1.A" = none))
+       | _ => false
+     | none => false) = true := by decide +kernel
+
+/-- the sites of the generated file of `c.j5s`: 7 fields in 3 messages (`C`, its map entry, the
+inline `C.In`), the innermost with a scope stack of length 2 -/
+example :
+    (match (sortFiles linkLoaded.files)[1]? with
+     | some f => decide ((msgsSites [] f.pkg f.msgs).length = 7) &&
+         (msgsSites [] f.pkg f.msgs).any (fun s => decide (s.1 = [b!"bar.v1.C", b!"bar.v1.C.In"]))
+     | none => false) = true := by decide +kernel
 
 def emptyCtx : Ctx := { resolve := fun _ _ => none }
 
